@@ -11,3 +11,4 @@ import SmVerif.Model.DriverSeq
 import SmVerif.Model.DriverSelect
 import SmVerif.Model.DriverTax
 import SmVerif.Model.DriverJson
+import SmVerif.Model.DriverSearch
